@@ -87,7 +87,19 @@ func c02Run(c *Ctx) {
 			body := func(x *X) {
 				restore()
 				desc, varied = "", nil
-				if x.Free(2, "filler assignment") == 1 {
+				fa := x.Free(3, "filler assignment")
+				if fa == 2 {
+					// every string-typed secret that is not e-mail-shaped takes the SAME text, whatever its
+					// class (ordinary string, $date, $oid, $binary.base64): equality across classes
+					for _, s := range live {
+						switch s.Lab.Class {
+						case ClsStr, ClsDate, ClsOid, ClsBin:
+							s.Str = "5f1e2d3c4b5a69788796a5ff"
+						}
+					}
+					desc = "all non-e-mail string literals made equal; "
+				}
+				if fa == 1 {
 					k := 0
 					for _, s := range live {
 						if focus[s] {
